@@ -128,3 +128,13 @@ Theorem C02_supplier_map_characterised : forall d pm provs, dpm d = Some (pm, pr
   exists ss, Permutation (filter Gen.isstruct (Gen.d_provs d)) ss /\ provs = Gen.d_provs d ++ flat_map fields_of ss.
 Proof. exact sup_char. Qed.
 Print Assumptions C02_supplier_map_characterised.
+
+(* Reordering never turns an accepted declaration into a refused one: the first pass accepts a provider list exactly when
+   no two different positions supply the same type (pass1_accepts_iff), a condition that mentions no order; stated here
+   for declarations without Struct expansions (for those with expansions the directed package nested_struct_order and
+   C09_orphan_never_accepted / C09_struct_pass_total cover the retrying second pass). *)
+Theorem C02_reordering_keeps_acceptance : forall d d',
+  Permutation (Gen.d_provs d) (Gen.d_provs d') -> filter Gen.isstruct (Gen.d_provs d) = [] ->
+  (exists r, dpm d = Some r) -> exists r', dpm d' = Some r'.
+Proof. exact acceptance_order_independent_no_structs. Qed.
+Print Assumptions C02_reordering_keeps_acceptance.
